@@ -7,7 +7,6 @@ import (
 	"sort"
 
 	"github.com/unixpickle/model3d/model2d"
-	"verif/vlib"
 	ref "verif/vlib/c07ref"
 )
 
@@ -96,7 +95,7 @@ func describeRef2(hits []ref.Hit2) []string {
 	return res
 }
 
-func checkRay2(c *vlib.Case, s *subject2, o, d V2) {
+func checkRay2(c *kase, s *subject2, o, d V2) {
 	size := s.ref.Size()
 	ray := &model2d.Ray{Origin: o.C2(), Direction: d.C2()}
 	var got []model2d.RayCollision
@@ -109,21 +108,21 @@ func checkRay2(c *vlib.Case, s *subject2, o, d V2) {
 			"origin_dec": dec2(o), "direction_dec": dec2(d), "returned": n1, "callbacks": describeHits2(got)}
 	}
 	if n1 != len(got) {
-		c.Violationf(key("RayCollisions", "count-vs-callbacks"), base(), "returned %d but made %d callbacks", n1, len(got))
+		c.Violate(key("RayCollisions", "count-vs-callbacks"), base, "returned %d but made %d callbacks", n1, len(got))
 	}
 	n2, pan := countNil2(s.coll, ray)
 	if pan != nil {
 		s.nilPanics = true
-		c.Violationf(key("RayCollisions", "nil-callback-panic"), base(), "RayCollisions(r, nil) panicked: %v (with a callback it returned %d)", pan, n1)
+		c.Violate(key("RayCollisions", "nil-callback-panic"), base, "RayCollisions(r, nil) panicked: %v (with a callback it returned %d)", pan, n1)
 	} else if n2 != n1 {
-		c.Violationf(key("RayCollisions", "count-nil-callback"), base(), "count with nil callback %d != count with callback %d", n2, n1)
+		c.Violate(key("RayCollisions", "count-nil-callback"), base, "count with nil callback %d != count with callback %d", n2, n1)
 	}
 	dn := d.Norm()
 	minScale := math.Inf(1)
 	for _, g := range got {
 		c.Count("clause.scale_nonneg", 1)
 		if !(g.Scale >= 0) || !finite(g.Scale) {
-			c.Violationf(key("RayCollisions", "scale-nonneg"), base(), "collision with Scale=%g", g.Scale)
+			c.Violate(key("RayCollisions", "scale-nonneg"), base, "collision with Scale=%g", g.Scale)
 			continue
 		}
 		minScale = math.Min(minScale, g.Scale)
@@ -131,7 +130,7 @@ func checkRay2(c *vlib.Case, s *subject2, o, d V2) {
 		res := math.Abs(s.ref.SDF(p))
 		c.Count("clause.on_surface", 1)
 		c.Max("worst_on_surface_residual_rel."+s.api, res/size)
-		if !(res <= tolOnSurface*size+1e-12*p.Dist(s.ref.Center())) {
+		if !(res <= tolOnSurface*size+1e-12*p.Dist(s.ref.Center())) && !c.fired(key("RayCollisions", "on-surface")) {
 			w := base()
 			w["point"] = dec2(p)
 			c.Violationf(key("RayCollisions", "on-surface"), w, "hit point o+%g*d is %g away from the outline (tolerance %g)", g.Scale, res, tolOnSurface*size)
@@ -139,7 +138,7 @@ func checkRay2(c *vlib.Case, s *subject2, o, d V2) {
 		nn := ref.From2(g.Normal).Norm()
 		c.Count("clause.normal_unit", 1)
 		if !(math.Abs(nn-1) <= 1e-6) {
-			c.Violationf(key("RayCollisions", "normal-unit"), base(), "normal has length %g", nn)
+			c.Violate(key("RayCollisions", "normal-unit"), base, "normal has length %g", nn)
 		}
 	}
 	first, ok := s.coll.FirstRayCollision(ray)
@@ -182,13 +181,13 @@ func checkRay2(c *vlib.Case, s *subject2, o, d V2) {
 		return w
 	}
 	if n1 != len(j.hits) {
-		c.Violationf(key("RayCollisions", "hit-count"), wref(), "reported %d collisions, the reference outline has %d (ray in general position)", n1, len(j.hits))
+		c.Violate(key("RayCollisions", "hit-count"), wref, "reported %d collisions, the reference outline has %d (ray in general position)", n1, len(j.hits))
 	}
 	if s.ref.Closed() {
 		c.Count("clause.parity", 1)
 		c.Count(s.api+".parity_decided", 1)
 		if (n1%2 == 1) != (j.sdfO > 0) {
-			c.Violationf(key("RayCollisions", "parity"), wref(), "count %d but the origin is inside=%v (reference sdf %g)", n1, j.sdfO > 0, j.sdfO)
+			c.Violate(key("RayCollisions", "parity"), wref, "count %d but the origin is inside=%v (reference sdf %g)", n1, j.sdfO > 0, j.sdfO)
 		}
 	}
 	if n1 != len(j.hits) || len(got) != n1 {
@@ -200,7 +199,7 @@ func checkRay2(c *vlib.Case, s *subject2, o, d V2) {
 		g := sorted[i]
 		tolT := tolOnSurface * size / h.Tang * 2
 		if !(math.Abs(g.Scale-h.T)*dn <= tolT) {
-			c.Violationf(key("RayCollisions", "hit-set"), wref(), "hit %d: Scale %g, reference %g", i, g.Scale, h.T)
+			c.Violate(key("RayCollisions", "hit-set"), wref, "hit %d: Scale %g, reference %g", i, g.Scale, h.T)
 			return
 		}
 		if h.Feat < featNormal*size {
@@ -212,7 +211,7 @@ func checkRay2(c *vlib.Case, s *subject2, o, d V2) {
 		c.Count("clause.normal_outward", 1)
 		c.Count(s.api+".normals_compared", 1)
 		gn := ref.From2(g.Normal)
-		if !(gn.Dist(h.N) <= tolNormal) {
+		if !(gn.Dist(h.N) <= tolNormal) && !c.fired(key("RayCollisions", "normal-outward")) {
 			w := wref()
 			w["expected_normal"] = dec2(h.N)
 			w["got_normal"] = dec2(gn)
@@ -221,7 +220,7 @@ func checkRay2(c *vlib.Case, s *subject2, o, d V2) {
 	}
 }
 
-func checkBall2(c *vlib.Case, s *subject2, ctr V2, r float64) {
+func checkBall2(c *kase, s *subject2, ctr V2, r float64) {
 	size := s.ref.Size()
 	sd := s.ref.SDF(ctr)
 	c.Count(s.api+".balls", 1)
@@ -244,12 +243,17 @@ func checkBall2(c *vlib.Case, s *subject2, ctr V2, r float64) {
 
 var containsDir2 = V2{0.5224892708603626, 0.10494477243214506}
 
-func checkContains2(c *vlib.Case, s *subject2, p V2, m float64) {
+func checkContains2(c *kase, s *subject2, p V2, m float64) {
 	if !s.ref.Closed() {
 		return
 	}
 	if s.nilPanics {
 		c.Undecided("contains2:collider-panics-on-nil-callback")
+		return
+	}
+	if _, pan := countNil2(s.coll, &model2d.Ray{Origin: p.C2(), Direction: containsDir2.C2()}); pan != nil {
+		s.nilPanics = true
+		c.Violationf(s.api+".RayCollisions/nil-callback-panic", map[string]interface{}{"collider": s.ref.Describe(), "origin": hex2(p), "direction": hex2(containsDir2)}, "RayCollisions(r, nil) panicked: %v", pan)
 		return
 	}
 	size := s.ref.Size()
@@ -464,7 +468,7 @@ func genPoint2(rng *rand.Rand, s *subject2) V2 {
 	}
 }
 
-func exercise2(c *vlib.Case, s *subject2, rays, balls, points int) {
+func exercise2(c *kase, s *subject2, rays, balls, points int) {
 	rng := c.Rng
 	for i := 0; i < rays; i++ {
 		o, d := genRay2(rng, s)
